@@ -6,7 +6,8 @@ HERE = os.path.dirname(os.path.dirname(os.path.abspath(__file__)))
 SCR = f"/root/scratch/bn{os.getpid()}"
 def sh(cmd, cwd=None):
     return subprocess.run(cmd, shell=True, cwd=cwd, capture_output=True, text=True)
-res = {}
+rp = os.path.join(HERE, "benign", "RESULTS.json")
+res = json.load(open(rp)) if os.path.exists(rp) else {}
 names = [n for n in sorted(os.listdir(os.path.join(HERE, "benign"))) if os.path.isdir(os.path.join(HERE, "benign", n))]
 for name in names:
     if len(sys.argv) > 1 and name not in sys.argv[1:]:
